@@ -228,8 +228,11 @@ def _impl_real(case):
                 ea = sorted(d['e_act'] for _a, _b, d in Jumps.to_graph.__wrapped__(j).edges(data=True))
             except Exception:
                 ea = []
-            if len(ea) >= 2 and ea[0] < ea[-1]:
-                mid = 0.5 * (ea[0] + ea[-1])
+            # the threshold sits in the middle of the widest gap between two activation energies, far from every edge's own value (a recomputation
+            # may differ from the memoised value in the last bits; an edge exactly on the threshold would then come and go)
+            gaps = [(b - a, 0.5 * (a + b)) for a, b in zip(ea, ea[1:])]
+            if gaps and max(gaps)[0] > 1e-6 * max(1.0, abs(ea[-1])):
+                mid = max(gaps)[1]
                 plan += [(n, j, 'to_graph', (), {'max_e_act': mid}), (n, j, 'to_graph', (), {'min_e_act': mid}), (n, j, 'to_graph', (), {})]
             from gemdat.collective import Collective
             co = Collective(jumps=j, sites=tr.sites, lattice=traj.get_lattice(), max_steps=8, max_dist=3.5)
